@@ -345,6 +345,10 @@ func VerifyFunc(P *Program, fn *ssa.Function, c *Contract, cf *ContractFile, ins
 				e.bindError(fmt.Sprintf("%s.ensures#%d", name, en.Ord), err)
 				continue
 			}
+			if en.Assumed {
+				e.assumed[fmt.Sprintf("postcondition %d of %s is assumed, not proved (`assumes`): %s", en.Ord, name, en.Text)] = true
+				continue
+			}
 			e.obNamed(fmt.Sprintf("%s.ensures#%d", name, en.Ord), "ensures", "postcondition: "+en.Text, rst.cond, g, fn.Pos())
 			// vacuity of a conditional postcondition: its antecedent must be possible at some return (a clause A ==> B whose
 			// A can never hold at a return says nothing - e.g. because the model loses the writes that make A true)
